@@ -182,3 +182,40 @@ func VX_C20_ByteBuffer(args []int) {
 	vxAssert(bytes.Equal(r.Bytes(), n), "recycled buffer holds exactly what was written")
 	vxCover("c20.bytebuffer")
 }
+
+func init() { vxRegister("VX_C20_GetMessagePanic", VX_C20_GetMessagePanic) }
+
+// VX_C20_GetMessagePanic: GetMessage is given settings of which a later one
+// panics (WithXferPipe with an unregistered filter id is documented to); the
+// caller recovers. The next message taken from the pool is indistinguishable
+// from a fresh one. args: nStr, badSetting(0 unregistered filter id, 1 a user setting that panics)
+func VX_C20_GetMessagePanic(args []int) {
+	nStr := args[0]
+	vxPoolMode(1)
+	warm := GetMessage()
+	PutMessage(warm)
+	panicked := false
+	func() {
+		defer func() {
+			if recover() != nil {
+				panicked = true
+			}
+		}()
+		bad := WithXferPipe(0xEE)
+		if args[1] == 1 {
+			bad = func(Message) { panic("user setting failed") }
+		}
+		GetMessage(
+			WithServiceMethod(vxString("p.method", nStr)),
+			WithAddMeta(vxString("p.k", nStr), vxString("p.v", nStr)),
+			WithBody(vxBytes("p.body", nStr)),
+			WithStatus(NewStatus(vxInt32("p.code"), "leftover", "")),
+			bad,
+		)
+	}()
+	vxAssert(panicked, "the bad setting panics")
+	r := GetMessage()
+	f := NewMessage()
+	vxSameMessage(r, f, "message taken after a failed GetMessage vs fresh")
+	vxCover("c20.getmessage-panic")
+}
